@@ -168,6 +168,9 @@ func hashOf(v interface{}) string {
 // runOne executes one scenario in a fresh directory.
 func runOne(env *Env, prop Property, data json.RawMessage, tier string, st *Stats, gomaxprocs int) (*Outcome, error) {
 	dir, err := os.MkdirTemp(env.Scratch, "w-")
+	if err == nil {
+		os.Chmod(dir, 0755)
+	}
 	if err != nil {
 		return nil, Harness("mkdir: %v", err)
 	}
